@@ -124,6 +124,8 @@ class Chars:
 
 
 def rand_word(r, maxlen, weights="UULLRRRDDDDCTTTAAS"):
+    if not weights:
+        return ""
     return "".join(r.choice(weights) for _ in range(r.range(0, maxlen)))
 
 
@@ -422,23 +424,31 @@ def run(ctx):
     shape_e2e(ctx, shim, model, ch, ctx.rng("e2e"), ctx.budget(20000, 300000), ctx.budget(3, 5))
 
 
-# letters of the generated positional-forms font, per class.  Chosen so that shape() itself does not disturb the
-# text: no canonical (de)compositions among them, marks do not compose with the letters; default ignorables
-# (ZWJ, ZWNJ) are kept by PRESERVE_DEFAULT_IGNORABLES.
-E2E_LETTERS = {
-    "U": [0x0041, 0x0621, 0x200C, 0x0030],
-    "L": [0xA872, 0x10ACD],
-    "R": [0x0627, 0x062F, 0x0648, 0x0717, 0x0718],
-    "D": [0x0628, 0x0633, 0x064A, 0x0712, 0x071D, 0x07CA],
-    "C": [0x0640, 0x200D],
-    "T": [0x064B, 0x0651, 0x070F, 0x0730],
-    "A": [0x0710],
-    "S": [0x0715, 0x0716, 0x072A, 0x072F],
-}
+# Alphabets of the generated positional-forms font: (ISO script, direction, FVS copy?, letters per class).
+# Chosen so that shape() itself does not disturb the text: no canonical (de)compositions among the letters, marks
+# do not compose with them and have equal combining classes within an alphabet or ccc 0 (no mark reordering);
+# default ignorables (ZWJ, ZWNJ, FVS) are kept by PRESERVE_DEFAULT_IGNORABLES.  Arabic and Syriac run the Arabic
+# shaper, the others reach the same setup_masks_inner through the Universal Shaping Engine.
+E2E_ALPHABETS = [
+    ("Arab", "r", False, {"U": [0x0041, 0x0621, 0x200C, 0x0030], "L": [0xA872, 0x10ACD],
+                          "R": [0x0627, 0x062F, 0x0648, 0x0717, 0x0718], "D": [0x0628, 0x0633, 0x064A, 0x0712, 0x071D, 0x07CA],
+                          "C": [0x0640, 0x200D], "T": [0x064B, 0x0651, 0x070F, 0x0730], "A": [0x0710],
+                          "S": [0x0715, 0x0716, 0x072A, 0x072F]}),
+    ("Mong", "l", True, {"U": [0x0020, 0x1800], "D": [0x1820, 0x1828, 0x182D, 0x1887], "C": [0x180A],
+                         "T": [0x180B, 0x180C, 0x180D, 0x180F]}),
+    ("Nkoo", "r", False, {"U": [0x0020, 0x07C0], "D": [0x07CA, 0x07DB, 0x07E0], "C": [0x07FA], "T": [0x07EB, 0x07F3]}),
+    ("Mand", "r", False, {"U": [0x0020, 0x085E], "R": [0x0840, 0x0846], "D": [0x0841, 0x0842], "T": [0x0859]}),
+]
+E2E_SYRC = ("Syrc", "r", False, E2E_ALPHABETS[0][3])
 
 
-def e2e_font(fontbuild):
-    letters = [c for k in CLASSES for c in E2E_LETTERS[k]]
+def e2e_font():
+    letters = []
+    for _, _, _, al in E2E_ALPHABETS:
+        for kk in CLASSES:
+            for c in al.get(kk, []):
+                if c not in letters:
+                    letters.append(c)
     k = len(letters)
     feats = ["isol", "fina", "fin2", "fin3", "medi", "med2", "init"]      # OpenType names; glyph block j+1 = feature j
     recipe = {
@@ -447,54 +457,60 @@ def e2e_font(fontbuild):
         "advances": [600] * (1 + 8 * k),
         "gsub": {
             "scripts": [{"tag": t, "default": {"required": None, "features": list(range(7))}, "langs": []}
-                        for t in ("DFLT", "arab", "syrc")],
+                        for t in ("DFLT", "arab", "syrc", "mong", "nko ", "mand")],
             "features": [{"tag": f, "lookups": [j]} for j, f in enumerate(feats)],
             "lookups": [{"type": 1, "flag": 0,
                          "subtables": [{"format": 1, "coverage": {"ranges": [(1, k)]}, "delta": k * (j + 1)}]}
                         for j in range(7)],
         },
     }
-    return letters, feats, recipe
+    return letters, recipe
 
 
 def shape_e2e(ctx, shim, model, ch, r, n, maxlen_exh):
     """End to end through the public shape(): a font whose 7 positional features map every letter to a distinct
-    glyph per form; the form read off the output glyph must be the spec's form (Lean spec through `arabic cls`)."""
+    glyph per form; the form read off the output glyph must be the spec's form (Lean spec through `arabic cls`;
+    for Mongolian additionally: a free variation selector shows the form of the item before it)."""
     try:
         import fontbuild
     except ImportError:
         ctx.cov.setdefault("not_run", []).append("shape-e2e: tools/fontbuild.py not available")
         return
-    letters, feats, recipe = e2e_font(fontbuild)
+    letters, recipe = e2e_font()
     k = len(letters)
-    cls_of = {c: kk for kk in CLASSES for c in E2E_LETTERS[kk]}
-    # the classes of the font's letters, as the crate sees them
     ch.learn(shim, letters)
-    for c in letters:
-        if ch.res[c] != JT_NUM[cls_of[c]]:
-            return  # already reported by known-chars
+    for _, _, _, al in E2E_ALPHABETS:
+        for kk, cs in al.items():
+            if any(ch.res[c] != JT_NUM[kk] for c in cs):
+                ctx.cov.setdefault("not_run", []).append("shape-e2e: a font letter is not in its class for the crate")
+                return  # (reported by known-chars when the character is listed there)
     fontline = "font c11e2e " + fontbuild.hexfont(recipe)
-    cases = []   # (script, pre, text, post) as class words + chosen letters
-    pick = lambda w: [r.choice(E2E_LETTERS[x]) for x in w]
-    # exhaustive short words x contexts of length 0/1 (one random letter per class occurrence)
-    ctxs = [""] + list(CLASSES)
-    for pre in ctxs:
-        for post in ctxs:
-            for ln in range(1, maxlen_exh + 1):
-                for w in itertools.product(CLASSES, repeat=ln):
-                    cases.append(("arab" if r.chance(3, 4) else "syrc", pre, "".join(w), post))
+    cases = []   # (alphabet, pre, word, post) as class words
+    alphabets = E2E_ALPHABETS + [E2E_SYRC]
+    for ab in alphabets:
+        cl = [x for x in CLASSES if x in ab[3]]
+        ctxs = [""] + cl
+        mx = maxlen_exh if ab[0] in ("Arab", "Mong") else maxlen_exh - 1
+        for pre in ctxs:
+            for post in ctxs:
+                for ln in range(1, mx + 1):
+                    for w in itertools.product(cl, repeat=ln):
+                        cases.append((ab, pre, "".join(w), post))
     for _ in range(n):
-        cases.append((r.choice(["arab", "arab", "syrc"]), rand_word(r, r.choice([0, 1, 2, 5])),
-                      rand_word(r, r.choice([5, 8, 12, 30])) or "D", rand_word(r, r.choice([0, 1, 2, 5]))))
+        ab = r.choice(alphabets)
+        wts = [x for x in "UULLRRRDDDDCTTTAAS" if x in ab[3]]
+        cases.append((ab, rand_word(r, r.choice([0, 1, 2, 5]), wts),
+                      rand_word(r, r.choice([5, 8, 12, 30]), wts) or "D", rand_word(r, r.choice([0, 1, 2, 5]), wts)))
     lines, oracle, meta = [], [], []
-    for script, pre, w, post in cases:
+    for ab, pre, w, post in cases:
+        pick = lambda word: [r.choice(ab[3][x]) for x in word]
         p, t, q_ = pick(pre), pick(w), pick(post)
         hx = lambda xs: ",".join("%x" % c for c in xs) or "-"
         text = ",".join("%x:%d" % (c, i) for i, c in enumerate(t))
-        # flags 4 = PRESERVE_DEFAULT_IGNORABLES, cluster level 1 = monotone characters, direction rtl
-        lines.append(f"shape c11e2e r {script} - 4 1 - {hx(p)} {hx(q_)} {text}")
+        # flags 4 | 16 = PRESERVE_DEFAULT_IGNORABLES | DO_NOT_INSERT_DOTTED_CIRCLE, cluster level 1 = monotone characters
+        lines.append(f"shape c11e2e {ab[1]} {ab[0]} - 20 1 - {hx(p)} {hx(q_)} {text}")
         oracle.append(f"arabic cls 0,0,0,0,0,0,0,0 {pre or '-'} {w} {post or '-'}")
-        meta.append(t)
+        meta.append((ab, t))
     outs = vlib.run_groups(shim, [[fontline] + lines])[0]
     if outs[0] != "ok":
         ctx.violation(f"generated positional-forms font rejected: {outs[0]}", {"stage": "search", "stream": "shape-e2e",
@@ -502,29 +518,37 @@ def shape_e2e(ctx, shim, model, ch, r, n, maxlen_exh):
         return
     spec = q(model, oracle)
     bad = 0
-    dist = {}
-    for ln, orc, t, o, sp in zip(lines, oracle, meta, outs[1:], spec):
+    dist, per = {}, {}
+    for ln, orc, (ab, t), o, sp in zip(lines, oracle, meta, outs[1:], spec):
         want = [int(x) for x in sp.split()[1:]]
+        if ab[2]:
+            for i in range(1, len(want)):
+                if t[i] in FVS:
+                    want[i] = want[i - 1]
         got, got_letters = None, None
         f = o.split()
         if f and f[0] == "ok" and int(f[1]) == len(t):
-            gids = [int(x.split(":")[0]) for x in f[2:]][::-1]          # rtl output is in visual order
-            got = [((g - 1) // k - 1) % 8 if g >= 1 else -1 for g in gids]    # block 0 = unsubstituted -> 7 (none)
+            gids = [int(x.split(":")[0]) for x in f[2:]]
+            if ab[1] == "r":
+                gids = gids[::-1]                                            # rtl output is in visual order
+            got = [((g - 1) // k - 1) % 8 if g >= 1 else -1 for g in gids]   # block 0 = unsubstituted -> 7 (none)
             got_letters = sorted(1 + (g - 1) % k for g in gids)
             for a in got:
                 dist[a] = dist.get(a, 0) + 1
+        per[ab[0]] = per.get(ab[0], 0) + 1
         ok = got == want and got_letters == sorted(1 + letters.index(c) for c in t)
         if not ok:
             bad += 1
             if bad <= 3:
-                ctx.violation(f"shape() on the positional-forms font: forms {got} differ from the spec {want} for {orc}",
+                ctx.violation(f"shape() on the positional-forms font ({ab[0]}): forms {got} differ from the spec {want} for {orc}",
                               {"stage": "search", "stream": "shape-e2e", "font_line": fontline, "request": ln,
                                "oracle": orc, "expected": want, "observed": o})
-    ctx.note_search("shape-e2e", len(lines), len(lines), mismatches=bad,
+    ctx.note_search("shape-e2e", len(lines), len(lines), mismatches=bad, per_script=per,
                     forms={ACTION_NAMES[a] if 0 <= a < 8 else str(a): v for a, v in sorted(dist.items())},
-                    rule=f"public shape() (scripts arab/syrc, rtl) on a generated font with {k} letters x 7 single-substitution "
-                         f"features; all class words of length <= {maxlen_exh} x contexts of length 0/1 plus random words "
-                         "<= 30 with contexts <= 5; form decoded from the glyph id == Lean spec")
+                    rule=f"public shape() on a generated font with {k} letters x 7 single-substitution features, scripts "
+                         f"Arab/Syrc (Arabic shaper) and Mong/Nkoo/Mand (USE); all class words of length <= {maxlen_exh} "
+                         f"(Arab, Mong; <= {maxlen_exh - 1} for the others) x contexts of length 0/1 plus random words <= 30 with "
+                         "contexts <= 5; form decoded from the glyph id == Lean spec (+ FVS copy for Mongolian)")
 
 
 def replay(ctx, rp):
